@@ -499,6 +499,17 @@ def run_conformance(ctx, t0, mc_future, n_emitted, uniq):
     got = {r["id"] for r in results}
     if len(got) < len(all_jobs):
         raise kit.Inconclusive("only %d of %d jobs reported" % (len(got), len(all_jobs)))
+    # a mandatory processor scenario that ended with an infrastructure error (err set: could not listen / connect / warm up ...)
+    # is run again, alone, up to two more times before the run is given up as inconclusive; a result with err carries no verdict
+    for again in (1, 2):
+        redo = [by_id[r["id"]] for r in results if r["kind"] == "proc" and r.get("err") and r.get("name") in REQUIRED_SCENARIOS]
+        if not redo:
+            break
+        kit.log("[c09] re-running %d mandatory scenarios that ended with an infrastructure error (%s)" % (
+            len(redo), sorted({(r.get("name"), str(r.get("err"))[:80]) for r in results if r.get("err") and r["kind"] == "proc"})[:3]))
+        more = run_jobs(ctx, redo, "redo%d" % again, workers=2, long_ms=10000, rerun_cap=1, timeout=300)
+        better = {r["id"]: r for r in more if not r.get("err")}
+        results = [better.get(r["id"], r) if (r["kind"] == "proc" and r.get("err")) else r for r in results]
     rep = [r for r in results if r["kind"] == "replay"]
     prc = [r for r in results if r["kind"] == "proc"]
     fre = [r for r in results if r["kind"] == "free"]
